@@ -35,6 +35,8 @@ Menu ==
     \cup {[m |-> "callfnmut", x |-> x] : x \in {1, 3}}
     \cup {[m |-> "boxed_fn", x |-> 0], [m |-> "use_boxed_fn", x |-> 4]}
     \cup {[m |-> "panic_lit", x |-> 0], [m |-> "panic_fmt", x |-> 9]}
+    \cup {[m |-> "fut", x |-> x] : x \in {0, 1, 2}}                 \* boxed future, Pending x times before Ready; driven at once
+    \cup {[m |-> "hold_fut", x |-> 1]}                              \* boxed future kept by the caller without polling it
 
 ArgBytes(c) ==
     CASE c.m = "add" -> 4 + 8
@@ -119,9 +121,25 @@ Panic(c) ==
     /\ rets' = Append(rets, Ev("panic", c.x))
     /\ UNCHANGED <<objs, held>>
 
+\* a boxed future returned to the caller: the caller polls it (each Pending wakes the caller's waker), obtains the
+\* output and drops it -- all objects involved live on the implementation's side of the boundary
+Fut(c) ==
+    /\ c.m = "fut"
+    /\ objs' = [x \in DOMAIN objs \cup {NewId} |-> IF x = NewId THEN [kind |-> "fut", owner |-> "dropped", drops |-> 1] ELSE objs[x]]
+    /\ log' = log \o <<Ev("fut", NewId)>> \o [n \in 1..(c.x + 1) |-> Ev("poll", c.x + 1 - n)]
+    /\ rets' = Append(rets, Ev("ok", c.x))
+    /\ UNCHANGED held
+\* a future that is never polled: the caller owns it until it drops it
+HoldFut(c) ==
+    /\ c.m = "hold_fut"
+    /\ objs' = With(NewId, Obj("fut", "caller"))
+    /\ held' = Append(held, NewId)
+    /\ log' = Append(log, Ev("fut", NewId))
+    /\ rets' = Append(rets, Ev("fut", NewId))
+
 Call == /\ phase = "calling" /\ Len(calls) < MaxCalls
         /\ \E c \in Menu :
-             /\ Plain(c) \/ TakeObj(c) \/ MakeObj(c) \/ UseObj(c) \/ DropObj(c) \/ CallFn(c) \/ BoxedFn(c) \/ UseBoxedFn(c) \/ Panic(c)
+             /\ Plain(c) \/ TakeObj(c) \/ MakeObj(c) \/ UseObj(c) \/ DropObj(c) \/ CallFn(c) \/ BoxedFn(c) \/ UseBoxedFn(c) \/ Panic(c) \/ Fut(c) \/ HoldFut(c)
              /\ calls' = Append(calls, [m |-> c.m, x |-> c.x, buf |-> BufKind(c)])
         /\ UNCHANGED phase
 \* the caller drops what it still holds (oldest first), then the connection: the implementation instance is dropped
